@@ -16,7 +16,7 @@ Elements are built deterministically from their value: see ``_triple``.  Values 
 
 Op vocabulary (every op is a tuple, first entry the name; ``vs`` is a list of values, ``keep`` says whether the history
 continues on the derived collection):
-  ("append", v) ("add_state", v) ("insert", i, v) ("remove", v) ("remove_at", i) ("pop", i) ("clear",) ("sort",)
+  ("append", v) ("add_state", v) ("insert", i, v) ("remove", v) ("remove_at", i) ("pop", i) ("clear",) ("sort",) ("sort", "reverse"|"key")
   ("extend", kind, vs) ("iadd", kind, vs)          kind in list|tuple|gen|ar|self   (self: res.extend(res))
   ("add", kind, vs, keep)                         kind in list|ar
   ("mul", k, keep) ("slice", a, b, step, keep) ("getitem", i)
@@ -158,7 +158,8 @@ def _mirror(m, op, mode):
         elif name == "clear":
             m.clear()
         elif name == "sort":
-            m.sort(key=lambda t: t[0])          # list.sort is stable, so is a sort through __lt__ on values
+            # list.sort is stable, so is a sort through __lt__ on values; ("sort", "reverse"|"key") sort descending
+            m.sort(key=lambda t: t[0], reverse=len(op) > 1)
         elif name == "extend":
             m.extend(_operand_triples(op[1], op[2], m, mode))
         elif name == "iadd":
@@ -246,7 +247,12 @@ def _library(res, op, mode):
     elif name == "clear":
         res.clear()
     elif name == "sort":
-        res.sort()
+        if len(op) == 1:
+            res.sort()
+        elif op[1] == "reverse":
+            res.sort(reverse=True)
+        else:
+            res.sort(key=lambda r: -r.value)
     elif name == "extend":
         res.extend(_operand_obj(op[1], op[2], res, mode))
     elif name == "iadd":
@@ -386,9 +392,11 @@ def _run_history(case):
                 if sorted(got, key=repr) != sorted(m, key=repr):
                     return Fail("after %s: elements changed" % what, key="contents:sort", observed=got, required=m)
                 vals = [t[0] for t in got]
-                if any(a > b for a, b in zip(vals, vals[1:])):
-                    return Fail("after %s the values are not in non-decreasing order: %r" % (what, vals),
-                                key="sort-order", observed=vals, required=sorted(vals))
+                desc = len(op) > 1
+                if any((a < b) if desc else (a > b) for a, b in zip(vals, vals[1:])):
+                    return Fail("after %s the values are not in %s order: %r"
+                                % (what, "non-increasing" if desc else "non-decreasing", vals),
+                                key="sort-order", observed=vals, required=sorted(vals, reverse=desc))
                 m = got
             else:
                 m = r[1]
@@ -473,7 +481,9 @@ def _rand_op(rng, name, m):
         return (name, rng.choice(vals_here) if vals_here and rng.random() < 0.9 else rng.choice(VALS))
     if name in ("remove_at", "pop", "delitem", "getitem"):
         return (name, _rand_index(rng, n))
-    if name in ("clear", "sort"):
+    if name == "sort":
+        return rng.choice([(name,), (name,), (name, "reverse"), (name, "key")])
+    if name == "clear":
         return (name,)
     if name in ("extend", "iadd"):
         kind = rng.choice(["list", "tuple", "gen", "ar", "ar", "self"])
@@ -758,6 +768,8 @@ def _gen_sort(ctx):
         for k in range(0, 5):
             for init in itertools.product([2, 1, 0.5], repeat=k):
                 yield {"mode": mode, "init": list(init), "init_kind": "list", "ops": [("sort",)]}
+                yield {"mode": mode, "init": list(init), "init_kind": "list", "ops": [("sort", "reverse")]}
+                yield {"mode": mode, "init": list(init), "init_kind": "list", "ops": [("sort", "key")]}
     rng = ctx.rng("c13.sort")
     for _ in range(ctx.pick(400, 8000)):
         mode = rng.choice(MODES)
@@ -769,6 +781,10 @@ def _gen_sort(ctx):
             ops.append(op)
             m = _follow(m, op, mode)
         yield {"mode": mode, "init": init, "init_kind": "list", "ops": ops + [("sort",)]}
+        # the inherited keyword arguments of list.sort, followed by edits that leave the best element in place
+        how = rng.choice(["reverse", "key"])
+        tail = [("append", max(init) + 1)] if init and rng.random() < 0.5 else []
+        yield {"mode": mode, "init": init, "init_kind": "list", "ops": ops + [("sort", how)] + tail}
 
 
 def _nt_sort(case):
